@@ -55,6 +55,8 @@ STREAMS = {
     "valid-then-garbage": _req("/r0") + b"\x00\x01garbage\r\n\r\n",
     "bad-target-ipv6": b"GET http://[ HTTP/1.1\r\nHost: x\r\n\r\n",
     "bad-target-port": b"GET http://a:b/ HTTP/1.1\r\nHost: x\r\n\r\n",
+    "bad-target-idna": b"GET http://xn--a/ HTTP/1.1\r\nHost: x\r\n\r\n",
+    "connect-bad-port": b"CONNECT host:99999999 HTTP/1.1\r\nHost: host\r\n\r\n",
     "bad-chunk": _req("/r0", "POST", b"Transfer-Encoding: chunked\r\n", b"zz\r\nabc\r\n0\r\n\r\n"),
     "partial-line": b"GET /r0 HTTP/1.1\r\nHost",
     "options-star": b"OPTIONS * HTTP/1.1\r\nHost: x\r\n\r\n",
@@ -64,7 +66,8 @@ STREAMS = {
     "deep-body-1": b"".join(_req(f"/r{i}") for i in range(31)) + _req("/r31", "POST", b"Content-Length: 30\r\n", b"0123456789abcdefghij"),
     "deep-body-2": b"klmnopqrst" + _req("/r32"),
 }
-BEHAVIOURS = ["ok", "raise", "http-exc", "timeout-exc", "ignore-body", "read-body", "stream", "none", "sleep"]
+BEHAVIOURS = ["ok", "raise", "http-exc", "timeout-exc", "ignore-body", "read-body", "stream", "none", "sleep",
+              "stream-then-raise", "stream-then-http-exc", "stream-then-timeout"]
 
 
 def _methods_and_paths(data):
@@ -117,10 +120,16 @@ def connection(ctx, nsteps=2, streams=None, behaviours=None, sym_hole=False, dis
             raise asyncio.TimeoutError()
         if b == "read-body":
             await request.read()
-        if b == "stream":
+        if b.startswith("stream"):
             resp = web.StreamResponse()
             await resp.prepare(request)
             await resp.write(tag.encode())
+            if b == "stream-then-raise":
+                raise RuntimeError("boom after the response began")
+            if b == "stream-then-http-exc":
+                raise web.HTTPForbidden(text="late")
+            if b == "stream-then-timeout":
+                raise asyncio.TimeoutError()
             await resp.write_eof()
             return resp
         if b == "none":
